@@ -354,7 +354,9 @@ func (m *Model) runSingletonsAndPurity(s *Sink, rule string) {
 				continue
 			}
 			pt := fn.Params[w.o.idx].Type()
-			if !strings.HasSuffix(types.TypeString(pt, nil), "object.Object") && !strings.Contains(types.TypeString(pt, nil), "[]github.com/textwire/textwire/v2/object.Object") {
+			ts := types.TypeString(pt, nil)
+			if _, isFunc := pt.Underlying().(*types.Signature); isFunc || (!strings.HasSuffix(ts, "object.Object") && !strings.Contains(ts, "[]github.com/textwire/textwire/v2/object.Object")) {
+				// (a function-typed parameter is a callback, not an operand: what it writes is its creator's business)
 				continue
 			}
 			s.Violation(rule, fmt.Sprintf("%s|writes through operand %s", fnKey(fn), fn.Params[w.o.idx].Name()), w.pos,
